@@ -426,6 +426,13 @@ fn execute(scn: &BScn, property: &str) -> RunOutcome {
                 .get::<AnimationSelector<Key, Target>>()
                 .and_then(|s| s.verif_acted_key().copied());
             let targets: Vec<Entity> = std::iter::once(w.entity).chain(w.mirror).collect();
+            // what the operation itself may and may not change (documented on the methods and
+            // fields): state and position of the main animator before it ...
+            let before_op = {
+                let e = w.app.world.entity(w.entity);
+                let a = e.get::<Animator<Target>>().expect("animator");
+                (a.state(), a.timeline_position, a.enabled)
+            };
             let r = catch(|| {
               for target_entity in &targets {
                 let mut e = w.app.world.entity_mut(*target_entity);
@@ -501,6 +508,36 @@ fn execute(scn: &BScn, property: &str) -> RunOutcome {
             });
             if let Err(p) = r {
                 bail_panic!(p, fi, format!("{op:?}"));
+            }
+            // ... and after it
+            if check18 || check19 {
+                let e = w.app.world.entity(w.entity);
+                let a = e.get::<Animator<Target>>().expect("animator");
+                let after_op = (a.state(), a.timeline_position, a.enabled);
+                let complaint = match op {
+                    // "changing the timeline will **not** reset the animation state"
+                    BOp::SetTimeline { reset: false, .. } if after_op != before_op => Some("set_timeline"),
+                    // "setting this property does not change the state"
+                    BOp::Enable(_) if (after_op.0, after_op.1) != (before_op.0, before_op.1) => Some("assigning `enabled`"),
+                    // "it will not change the animator's state"
+                    BOp::Seek { .. } if (after_op.0, after_op.2) != (before_op.0, before_op.2) => Some("assigning `timeline_position`"),
+                    BOp::Reset | BOp::SetTimeline { reset: true, .. }
+                        if (after_op.0, after_op.1, after_op.2) != (AnimationState::None, Duration::ZERO, before_op.2) =>
+                    {
+                        Some("reset()")
+                    }
+                    _ => None,
+                };
+                if let Some(what) = complaint {
+                    out.violation = Some(viol(
+                        if check18 { "C18" } else { "C19" },
+                        "operation-changed-more-than-documented",
+                        fi,
+                        format!("frame {fi}: {what} took the animator from (state, position, enabled) = {before_op:?} to {after_op:?}"),
+                        format!("op {op:?}"),
+                    ));
+                    break;
+                }
             }
             if matches!(op, BOp::PauseTime(_) | BOp::TimeSpeed(_)) {
                 w.apply_time_op(op);
@@ -624,6 +661,9 @@ fn execute(scn: &BScn, property: &str) -> RunOutcome {
                     }
                 }
             }
+        }
+        if out.violation.is_some() {
+            break;
         }
         stale_ended = swapped_while_ended;
         // ---- side entities: their own assembly schedule ----------------------------------------
@@ -1107,6 +1147,13 @@ fn execute(scn: &BScn, property: &str) -> RunOutcome {
                         let simple = !m.parts.is_empty() && m.parts.iter().all(|p| p.delay == 0.0 && p.repeat == Rep::None);
                         if simple {
                             let total32 = m.parts.iter().map(|p| p.duration).fold(0.0f32, f32::max);
+                            if total32 >= 1.0 / 64.0
+                                && after.state == AnimationState::Ended
+                                && state_base != AnimationState::Ended
+                                && (after.pos.as_secs_f64() as f32) < total32
+                            {
+                                fail!("C18", "ended-too-early", "frame {fi}: Ended at position {:?} (as f32: {:?}), before the total duration {total32:?}", after.pos, after.pos.as_secs_f64() as f32);
+                            }
                             if total32 >= 1.0 / 64.0 && (pos_base.as_secs_f64() as f32) >= total32 {
                                 out.count("probe.position_reached_an_unambiguous_total");
                                 if after.state != AnimationState::Ended {
